@@ -1,4 +1,6 @@
 """C11 pre-emptive priorities — no inversion, victim rule, resume/restart/resample bookkeeping."""
+from decimal import Decimal
+
 from ..core import Oracle
 
 
@@ -7,6 +9,8 @@ def isnan(x):
 
 
 def close(a, b, tol=1e-9):
+    if isinstance(a, Decimal) or isinstance(b, Decimal):
+        return a == b          # exact arithmetic: no tolerance
     return abs(a - b) <= tol * max(1.0, abs(a), abs(b))
 
 
@@ -46,11 +50,17 @@ class C11(Oracle):
                 n = self.pre_count[(nid, iid)] = self.pre_count.get((nid, iid), 0) + 1
                 if n >= 2:
                     self.twice += 1
-                worst = max(p for p, _, _ in sv.values())
+                # a blocked customer has finished its service: it is not a candidate (and is never the victim)
+                nd = R.sim.transitive_nodes[nid - 1]
+                blocked = set(i.id_number for i in R.inds(nd) if i.is_blocked)
+                if iid in blocked:
+                    self.fail("blocked-customer-pre-empted", "node %s pre-empted ind %s, which had finished its service and was blocked" % (nid, iid))
+                cands = {j: v for j, v in sv.items() if j not in blocked}
+                worst = max(p for p, _, _ in cands.values())
                 mine = sv[iid]
                 if mine[0] != worst:
                     self.fail("victim-not-lowest-priority", "node %s pre-empted ind %s of priority %s while priority %s is in service" % (nid, iid, mine[0], worst))
-                latest = max(st for p, st, _ in sv.values() if p == worst)
+                latest = max(st for p, st, _ in cands.values() if p == worst)
                 if mine[1] != latest:
                     self.fail("victim-not-most-recently-started", "node %s pre-empted ind %s started %r; a customer of the same priority started %r" % (nid, iid, mine[1], latest))
             sv.pop(iid, None)
@@ -65,6 +75,8 @@ class C11(Oracle):
             for i in R.inds(nd):
                 pr = self.prio(i)
                 if i.server:
+                    if i.is_blocked:
+                        continue      # finished and blocked: keeps its server, cannot be pre-empted
                     if worst_served is None or pr > worst_served[0]:
                         worst_served = (pr, i.id_number)
                 else:
@@ -107,7 +119,10 @@ class C11(Oracle):
             ptr[nid] = p + 1
             if d[p][1] != start:
                 self.fail("sample-not-at-segment-start", "ind %s at node %s: sample drawn at %r, segment starts %r" % (iid, nid, d[p][1], start))
-            return d[p][2]
+            v = d[p][2]
+            if R.S.get("exact") and not isinstance(v, Decimal):
+                v = Decimal(str(v))
+            return v
 
         segs = [(r.node, r.record_type, r.service_start_date, r.exit_date, r.service_time, r.service_end_date, r.destination) for r in ind.data_records]
         if where is not None and ind.service_start_date is not False and not isinstance(ind.service_start_date, str):
